@@ -21,7 +21,7 @@ import (
 func TestC18(t *testing.T) {
 	r := NewReporter(t)
 	defer r.Done()
-	r.Rule("(a) every tree with <= N nodes x {plain, PS3}: successive opens with the virtual clock advanced by {0, 1 s, 1 h, 400 d} between them, library view (sequential reads, io.Copy with and without the optional fast paths, a positional section reader) and over the protocol, and reads by absolute offset at every structural boundary +-1 on a fresh open into dirty buffers; (a') a 150-entry directory opened with per-name answer latencies that differ from open to open; (b) two concurrent opens+reads of the same tree under the controlled scheduler (scheduling points = leaf filesystem operations, all interleavings with <= 2/3 preemptions) for 4 representative trees; (c) for these and a PS3 tree with decoy PARAM.SFO files: an open disturbed by one deviation at every leaf filesystem operation index (EIO, EINTR, short reads of 1 / half / all-but-one / 5 / 7 / 8 bytes) fails or yields the same image and stays readable; oracle: equal size, byte-equal outside the PVD/SVD creation/modification timestamps and PS3 sector-1 filler; distinct by (tree, mode, gap | schedule)")
+	r.Rule("(a) every tree with <= N nodes x {plain, PS3}: successive opens with the virtual clock advanced by {0, 1 s, 1 h, 400 d} between them, library view (sequential reads, io.Copy with and without the optional fast paths, a positional section reader; for every 5th tree the real make-iso to a file and to standard output) and over the protocol, and reads by absolute offset at every structural boundary +-1 on a fresh open into dirty buffers; (a') a 150-entry directory opened with per-name answer latencies that differ from open to open; (b) two concurrent opens+reads of the same tree under the controlled scheduler (scheduling points = leaf filesystem operations, all interleavings with <= 2/3 preemptions) for 4 representative trees; (c) for these and a PS3 tree with decoy PARAM.SFO files: an open disturbed by one deviation at every leaf filesystem operation index (EIO, EINTR, short reads of 1 / half / all-but-one / 5 / 7 / 8 bytes) fails or yields the same image and stays readable; oracle: equal size, byte-equal outside the PVD/SVD creation/modification timestamps and PS3 sector-1 filler; distinct by (tree, mode, gap | schedule)")
 	base := filepath.Join(scratchBase(), sprintf("verifh-c18-%d", os.Getpid()))
 	root := filepath.Join(base, "root")
 	defer os.RemoveAll(base)
@@ -72,8 +72,51 @@ func TestC18(t *testing.T) {
 				desc := sprintf("tree[%s] ps3=%v%s", tr.String(), ps3, odd)
 				mask := isoVarMask(ps3)
 				rep := map[string]any{"tree": tr.Nodes, "ps3": ps3}
+				var firstOut []byte
+				toolCheck := func() {
+					// ... and make-iso (to a file, to standard output) is one more open of the same unchanged tree; run
+					// outside the bubble (a real process) for every 5th tree
+					if firstOut == nil || binPath() == "" || (idx/r.NShards)%5 != 0 {
+						return
+					}
+					args := []string{"make-iso"}
+					if ps3 {
+						args = append(args, "--ps3-mode")
+					}
+					for _, target := range []string{"file", "stdout"} {
+						out := filepath.Join(base, "tool.iso")
+						os.Remove(out)
+						var code int
+						var stderr string
+						var err error
+						if target == "file" {
+							code, _, stderr, err = runTool(append(args, filepath.Join(root, "T"), out), cleanEnv(base), base, "", 120*time.Second)
+						} else {
+							code, _, stderr, err = runTool(append(args, filepath.Join(root, "T"), "-"), cleanEnv(base), base, out, 120*time.Second)
+						}
+						r.Trace(1)
+						data, _ := os.ReadFile(out)
+						os.Remove(out)
+						if err != nil || code != 0 {
+							r.Violation("C18:make-iso-failed", sprintf("%s: make-iso to %s: exit %d %v %s", desc, target, code, err, lastLines(stderr, 3)), rep)
+							return
+						}
+						if len(data) != len(firstOut) {
+							r.Outcome("make-iso-size-differs")
+							r.Violation("C18:make-iso-size-differs:"+target, sprintf("%s: make-iso to %s delivered %d bytes, the first open of the same tree %d", desc, target, len(data), len(firstOut)), rep)
+							return
+						}
+						if d := maskedEqual(firstOut, data, mask); d != "" {
+							r.Outcome("make-iso-bytes-differ")
+							r.Violation("C18:make-iso-bytes-differ:"+target, sprintf("%s: image written by make-iso to %s differs from the first open outside the variable fields: %s", desc, target, d), rep)
+							return
+						}
+						r.Outcome("make-iso-same:" + target)
+					}
+				}
 				synctest.Test(t, func(t *testing.T) {
 					first, size0, err := readLib(ps3)
+					firstOut = first
 					r.Transition(1)
 					if err != nil {
 						r.Violation("C18:create-failed", desc+": "+err.Error(), rep)
@@ -176,6 +219,7 @@ func TestC18(t *testing.T) {
 						r.Outcome("resume-same")
 					}
 				})
+				toolCheck()
 				// over the protocol (another connection, later)
 				if idx%8 == 0 {
 					pre := "/***DVD***/T"
